@@ -447,6 +447,9 @@ func (g *apiGen) indexKeys() bson.D {
 	if g.malformed && r.P(5) {
 		return bson.D{}
 	}
+	if g.malformed && r.P(8) {
+		return bson.D{{Key: []string{"$x", "$or", "a.$b", ""}[r.N(4)], Value: int32(1)}}
+	}
 	fields := apiIdxFields
 	if g.profile == "uniq" {
 		fields = []string{"a", "b", "a.b"}
